@@ -230,7 +230,7 @@ def body(ctx, rng, procs, bg, built):
                   for c in range(nchunks)]
         vsample = 400          # scripts per chunk validated by the trace spec
     else:
-        chunks = [("q", sorted(rng.sample(range(NINIT), 1500)), 1, 0)]
+        chunks = [("q", sorted(rng.sample(range(NINIT), 1000)), 1, 0)]
         vsample = None         # all
     per_script = None if ctx.thorough else 4
     covered = set()
